@@ -84,3 +84,25 @@ Example C10_int_typed_example :
   int_const_type false (s2l "0x1FuLL") = Some (s2l "unsigned long long int")
   /\ spec_type (s2l "uLL") = s2l "unsigned long long int".
 Proof. vm_compute. split; reflexivity. Qed.
+
+(* UNBOUNDED, floating constants (proofs/FloatLiteral.v): every FLOAT_CONST / HEX_FLOAT_CONST token the lexer can emit, from any
+   text - any number of digits - is spelled  x ++ t  with x non-empty and not ending in f F l L (in a hexadecimal constant x
+   ends in the decimal digits of the binary exponent although hex digits a-f occur before) and t one of "", f, F, l, L; and
+   _parse_constant's classifier, which only looks at the last character, gives exactly the type that suffix spells -
+   double / float / long double - and never raises IndexError *)
+From PV Require FloatLiteral.
+Theorem C10_floating_tokens_typed_by_suffix : forall fuel st rest,
+  Forall (fun i => match i with
+                   | Lexer.RTok k v _ _ _ => FloatLiteral.is_float_kind k = true ->
+                       exists x t, v = x ++ t /\ x <> [] /\ FloatLiteral.lastgood x /\
+                                   float_const_type v = Some (FloatLiteral.spec_ftype t)
+                   | _ => True end)
+         (fst (fst (Lexer.raw_lex fuel st rest))).
+Proof. exact FloatLiteral.lexer_float_tokens_typed. Qed.
+Print Assumptions C10_floating_tokens_typed_by_suffix.
+
+(* non-vacuity: 0x1.fp3L is a long double although `f` occurs in it; 1e5f is a float; 1. is a double *)
+Example C10_float_typed_example :
+  float_const_type (s2l "0x1.fp3L") = Some (s2l "long double") /\ float_const_type (s2l "1e5f") = Some (s2l "float")
+  /\ float_const_type (s2l "1.") = Some (s2l "double") /\ FloatLiteral.rulef_ok re_HEX_FLOAT_CONST = true.
+Proof. vm_compute. repeat split; reflexivity. Qed.
